@@ -1,4 +1,5 @@
-import CddVerif.Proofs.Iface
+import CddVerif.Proofs.IfaceFn
+import CddVerif.Proofs.IfaceArgparse
 /-!
 # C02 — class, pydantic, function and argparse emit → render → parse round trip
 
@@ -6,18 +7,22 @@ import CddVerif.Proofs.Iface
 arbitrary environment `env : Iface.Env` — the docstring layer of property C01 (`docEmit`, `docParse`,
 `extractDefault`, `adhocTyp`) and CPython's expression parser (`pyExpr`) are parameters.  The hypotheses are explicit:
 
-* `EnvOK env` — the one CPython fact used: a source wrapped in backticks does not parse;
+* `EnvOK env` — the one CPython fact used (class / pydantic only): a source wrapped in backticks does not parse;
 * `docHyp env f cfg ir = true` — the docstring layer's round trip on this interface (decidable; `Model/IfaceDomain.lean`):
   what `docParse` returns for the docstring `docEmit` produced has the same entries in the same order, the same
   descriptions up to the view's normalisation, announces no default and triggers no ad-hoc type, and carries the emitted
   type / default wherever the format has no other carrier;
 * `inD02 env f cfg ir = true` — the interface lies in the region where format `f` applies the statement's
-  normalisations *only* (decidable; every clause that is narrower than the statement is matched by a negation below).
+  normalisations *only* (decidable; the clauses that are narrower than the statement are matched by the negations below).
 
-`norm f` is exactly the statement's per-format normalisation.
+`norm f` is exactly the statement's per-format normalisation.  All four theorems are proved for every number of
+parameters (induction over the parameter list) and every configuration (`style`, `emit_default_doc`, and for functions
+`type_annotations`, `emit_as_kwonlyargs`; `static` / `self` / `cls`).
 -/
 namespace C02
 open Iface
+
+deriving instance DecidableEq for Except
 
 /-- **The statement's normalisations, nothing else:** a function parameter without default is shown as `=None`;
     argparse keeps a return entry only when it has a default value. -/
@@ -28,17 +33,18 @@ def norm (f : Format) (ir : IR) : IR :=
     { ir with params := ir.params.map (fun kv => (kv.1, if kv.2.default.isNone then { kv.2 with default := some (.val (.str NoneStr)) } else kv.2)) }
   | .argparse => { ir with returns := ir.returns.bind (fun r => if r.default.isSome then some r else none) }
 
-/-- emit, render + re-read, parse, view -/
+/-- emit, render + re-read, parse, view (names in order, types, typed defaults, normalised descriptions, return entry) -/
 def roundTrip (env : Env) (f : Format) (cfg : Cfg) (ir : IR) : Except String (List PV × Option PV) := do
   let t ← emit env f cfg ir
   let ir' ← parse env f t.reparse
   pure ir'.view
 
-/-- signature-legal interface descriptions: typed parameters with distinct names whose defaults form a suffix -/
+/-- signature-legal interface descriptions: distinct names, defaults form a suffix -/
 def Legal (ir : IR) : Prop := namesOk ir = true ∧ defaultsSuffix ir.params = true
+instance (ir : IR) : Decidable (Legal ir) := by unfold Legal; infer_instance
 
 /-- **The full statement** (for one environment): every signature-legal interface, every format and configuration —
-    under the docstring layer's own round trip — comes back as `norm f ir`.  It does NOT hold of the unchanged code
+    given the docstring layer's own round trip — comes back as `norm f ir`.  It does NOT hold of the unchanged code
     (negations below); `C02_class`, `C02_pydantic`, `C02_function`, `C02_argparse` prove it on `inD02`. -/
 def C02_full (env : Env) : Prop :=
   ∀ f cfg ir, Legal ir → docHyp env f cfg ir = true → roundTrip env f cfg ir = .ok (norm f ir).view
@@ -57,5 +63,207 @@ theorem C02_pydantic (env : Env) (hEnv : EnvOK env) (cfg : Cfg) (ir : IR)
     roundTrip env .pydantic cfg ir = .ok (norm .pydantic ir).view := by
   have := class_roundtrip env hEnv true { cfg with classBases := ["BaseModel"] } ir hD hH
   simpa [roundTrip, emit, parse, norm, classRoundTrip] using this
+
+/-- **Function / method (partial: on `inD02`).** with types as annotations or in the docstring, keyword-only or positional,
+    `static` / `self` / `cls`: every parameter comes back with its name, place, type, description and default — a
+    parameter without default as `None` (the statement's normalisation) — and so does the return entry. -/
+theorem C02_function (env : Env) (cfg : Cfg) (ir : IR)
+    (hD : inD02 env .function cfg ir = true) (hH : docHyp env .function cfg ir = true) :
+    roundTrip env .function cfg ir = .ok (norm .function ir).view := by
+  have := function_roundtrip env cfg ir hD hH
+  unfold functionRoundTrip normFn normEntry at this
+  unfold roundTrip emit parse norm
+  exact this
+
+/-- **Argparse (partial: on `inD02`).** every `add_argument` call is read back as the parameter it was emitted from
+    (`type=`, `help=`, `required=`, `default=`; a falsy default `0` / `0.0` / `False` / `""` is a default, not an absent
+    one); the return entry survives only with a default (the statement's normalisation). -/
+theorem C02_argparse (env : Env) (cfg : Cfg) (ir : IR)
+    (hD : inD02 env .argparse cfg ir = true) (hH : docHyp env .argparse cfg ir = true) :
+    roundTrip env .argparse cfg ir = .ok (norm .argparse ir).view := by
+  have := argparse_roundtrip env cfg ir hD hH
+  simpa [roundTrip, emit, parse, norm, argparseRoundTrip, normArgparse] using this
+
+/-! ## a concrete environment (non-vacuity and negations)
+
+An *ideal* docstring layer: whatever docstring it is given, `docParse` answers the interface `d` chosen below (the
+entries with their descriptions), no description announces a default or triggers an ad-hoc type; the expression parser
+knows the sources listed in `tbl`. -/
+
+def envOf (raw : String) (d : IR) (tbl : List (String × Expr)) : Env :=
+  { docEmit := fun _ _ => raw, docParse := fun _ _ => d, extractDefault := fun _ s => (s, none), adhocTyp := fun _ _ _ => none,
+    pyExpr := fun s => (tbl.find? (·.1 == s)).map (·.2) }
+
+theorem envOf_ok (raw : String) (d : IR) (tbl : List (String × Expr)) (h : tbl.all (fun kv => !codeQuoted kv.1) = true) :
+    EnvOK (envOf raw d tbl) := by
+  intro s hs
+  simp only [envOf, Option.map_eq_none_iff, List.find?_eq_none, beq_iff_eq]
+  intro kv hkv he
+  simp only [List.all_eq_true, Bool.not_eq_true'] at h
+  have := h kv hkv
+  rw [he, hs] at this
+  cases this
+
+/-- eight parameters: no default, falsy defaults on scalar and compound types (`0`, `0.0`, `False`, `""`), `None`
+    under `Optional`, a code default under `List[…]`, a negative number; a return entry with a source default -/
+def irA : IR :=
+  { name := some "F", doc := "Summary.",
+    params := [("a", { doc := some "first one", typ := some "int" }),
+               ("b", { doc := some "second", typ := some "Optional[int]", default := some (.val (.int 0)) }),
+               ("c", { doc := some "third", typ := some "Union[int, float]", default := some (.val (.float "0.0")) }),
+               ("d", { doc := some "fourth", typ := some "bool", default := some (.val (.bool false)) }),
+               ("e", { doc := some "fifth", typ := some "str", default := some (.val (.str "")) }),
+               ("f", { doc := some "sixth", typ := some "Optional[str]", default := some (.val (.str NoneStr)) }),
+               ("g", { doc := some "seventh", typ := some "List[int]", default := some (.val (.str "```foo(3)```")) }),
+               ("h", { doc := some "eighth", typ := some "int", default := some (.val (.int (-3))) })],
+    returns := some { doc := some "the result", typ := some "Optional[str]", default := some (.val (.str "K")) } }
+/-- what the ideal docstring layer answers for a class docstring of `irA` (the return entry among the attributes) -/
+def dA : IR :=
+  { doc := "Summary.",
+    params := [("a", { doc := some "first one." }), ("b", { doc := some "second" }), ("c", { doc := some "third" }), ("d", { doc := some "fourth" }),
+               ("e", { doc := some "fifth" }), ("f", { doc := some "sixth" }), ("g", { doc := some "seventh" }), ("h", { doc := some "eighth" }),
+               ("return_type", { doc := some "the  result." })] }
+/-- … and for a function docstring (types in the docstring: `type_annotations=False`) -/
+def dAfn : IR :=
+  { doc := "Summary.",
+    params := [("a", { doc := some "first one.", typ := some "int" }), ("b", { doc := some "second", typ := some "Optional[int]" }),
+               ("c", { doc := some "third", typ := some "Union[int, float]" }), ("d", { doc := some "fourth", typ := some "bool" }),
+               ("e", { doc := some "fifth", typ := some "str" }), ("f", { doc := some "sixth", typ := some "Optional[str]" }),
+               ("g", { doc := some "seventh", typ := some "List[int]" }), ("h", { doc := some "eighth", typ := some "int" })],
+    returns := some { doc := some "the  result.", typ := some "Optional[str]" } }
+def tblA : List (String × Expr) := [("K", .name "K")]
+
+set_option maxRecDepth 8000 in
+/-- non-vacuity of `C02_class` / `C02_pydantic`: `irA` satisfies the hypotheses -/
+example : EnvOK (envOf "doc" dA tblA) ∧ inD02 (envOf "doc" dA tblA) .class_ {} irA = true ∧ docHyp (envOf "doc" dA tblA) .class_ {} irA = true :=
+  ⟨envOf_ok _ _ _ (by decide), by decide, by decide⟩
+
+set_option maxRecDepth 8000 in
+/-- non-vacuity of `C02_function`, with the types in the docstring, positional parameters and a `self` receiver -/
+example : inD02 (envOf "doc" dAfn tblA) .function { typeAnnotations := false, kwOnly := false } { irA with type := some "self" } = true ∧
+    docHyp (envOf "doc" dAfn tblA) .function { typeAnnotations := false, kwOnly := false } { irA with type := some "self" } = true := by decide
+
+/-- argparse: scalar and `Optional[scalar]` parameters with falsy defaults of their own type; a return entry with a default -/
+def irB : IR :=
+  { name := some "F", doc := "Summary.",
+    params := [("a", { doc := some "first one", typ := some "int", default := some (.val (.int 0)) }),
+               ("b", { doc := some "second", typ := some "Optional[float]", default := some (.val (.float "0.0")) }),
+               ("c", { doc := some "third", typ := some "bool", default := some (.val (.bool false)) }),
+               ("d", { typ := some "Optional[str]", default := some (.val (.str "")) }),
+               ("e", { doc := some "fifth", typ := some "str", default := some (.val (.str "")) }),
+               ("f", { doc := some "sixth", typ := some "Optional[bool]", default := some (.val (.bool false)) })],
+    returns := some { doc := some "the result", typ := some "List[int]", default := some (.val (.str "K")) } }
+def dB : IR := { doc := "Set CLI arguments", params := [("argument_parser", { doc := some "argument parser", typ := some "ArgumentParser" })],
+                 returns := some { doc := some "argument_parser, the result", typ := some "Tuple[ArgumentParser, List[int]]" } }
+def rawB : String := "\n    Set CLI arguments\n\n    :return: argument_parser, the result\n    :rtype: ```Tuple[ArgumentParser, List[int]]```\n    "
+
+set_option maxRecDepth 8000 in
+/-- non-vacuity of `C02_argparse` -/
+example : inD02 (envOf rawB dB tblA) .argparse {} irB = true ∧ docHyp (envOf rawB dB tblA) .argparse {} irB = true := by decide
+
+/-! ## negations: the unchanged code normalises further than the statement allows
+
+Each witness is a signature-legal interface for which the ideal docstring layer satisfies `docHyp`, yet the round trip
+differs from `norm f ir` — so `C02_full` fails for that environment.  Every witness is replayed on the real code by
+`harness/props/c02.py` (known findings `C02-…`). -/
+
+theorem refute (env : Env) (f : Format) (cfg : Cfg) (ir : IR) (hl : Legal ir) (hh : docHyp env f cfg ir = true)
+    (hne : roundTrip env f cfg ir ≠ .ok (norm f ir).view) : ¬ C02_full env :=
+  fun h => hne (h f cfg ir hl hh)
+
+def one (n : String) (p : Param) (ret : Option Param := none) : IR := { name := some "F", doc := "Summary.", params := [(n, p)], returns := ret }
+def docOne (n : String) (d : String) (t : Option String := none) (ret : Option Param := none) : IR :=
+  { doc := "Summary.", params := [(n, { doc := some d, typ := t })], returns := ret }
+def envP : Env := envOf "doc" (docOne "x" "a value") []
+
+/-- **argparse gives a parameter without default the zero of its type** (`int` ↦ `0`) -/
+theorem argparse_zero_default :
+    roundTrip envP .argparse {} (one "x" { doc := some "a value", typ := some "int" }) =
+      .ok ([{ name := "x", typ := some "int", default := some (.val (.int 0)), doc := some "a value" }], none) := by decide
+theorem C02_full_fails_argparse_zero_default : ¬ C02_full envP :=
+  refute envP .argparse {} (one "x" { doc := some "a value", typ := some "int" }) (by decide) (by decide) (by decide)
+
+/-- **argparse turns `bool` without default into `Optional[bool]`** -/
+theorem argparse_bool_optional :
+    roundTrip envP .argparse {} (one "x" { doc := some "a value", typ := some "bool" }) =
+      .ok ([{ name := "x", typ := some "Optional[bool]", default := none, doc := some "a value" }], none) := by decide
+theorem C02_full_fails_argparse_bool_optional : ¬ C02_full envP :=
+  refute envP .argparse {} (one "x" { doc := some "a value", typ := some "bool" }) (by decide) (by decide) (by decide)
+
+/-- **argparse widens a non-scalar type to `str`** (and gives it the default `""`) -/
+theorem argparse_nonscalar_str :
+    roundTrip envP .argparse {} (one "x" { doc := some "a value", typ := some "np.ndarray" }) =
+      .ok ([{ name := "x", typ := some "str", default := some (.val (.str "")), doc := some "a value" }], none) := by decide
+theorem C02_full_fails_argparse_nonscalar_str : ¬ C02_full envP :=
+  refute envP .argparse {} (one "x" { doc := some "a value", typ := some "np.ndarray" }) (by decide) (by decide) (by decide)
+
+/-- **argparse keeps one member of a `Union`** (here the type of the default) -/
+theorem argparse_union_narrowed :
+    roundTrip envP .argparse {} (one "x" { doc := some "a value", typ := some "Union[int, float]", default := some (.val (.int 0)) }) =
+      .ok ([{ name := "x", typ := some "int", default := some (.val (.int 0)), doc := some "a value" }], none) := by decide
+theorem C02_full_fails_argparse_union_narrowed : ¬ C02_full envP :=
+  refute envP .argparse {} (one "x" { doc := some "a value", typ := some "Union[int, float]", default := some (.val (.int 0)) })
+    (by decide) (by decide) (by decide)
+
+/-- **argparse drops a `None` default** -/
+theorem argparse_none_default_dropped :
+    roundTrip (envOf "doc" (docOne "x" "a value") [("(None)", .const .none)]) .argparse {} (one "x" { doc := some "a value", typ := some "Optional[int]", default := some (.val (.str NoneStr)) }) =
+      .ok ([{ name := "x", typ := some "Optional[int]", default := none, doc := some "a value" }], none) := by decide
+theorem C02_full_fails_argparse_none_default_dropped : ¬ C02_full (envOf "doc" (docOne "x" "a value") [("(None)", .const .none)]) :=
+  refute _ .argparse {} (one "x" { doc := some "a value", typ := some "Optional[int]", default := some (.val (.str NoneStr)) })
+    (by decide) (by decide) (by decide)
+
+/-- **class / pydantic / function: a code default under a type without `[` deletes the type** -/
+theorem class_typ_dropped_code_default :
+    roundTrip envP .class_ {} (one "x" { doc := some "a value", typ := some "np.ndarray", default := some (.val (.str "```foo(3)```")) }) =
+      .ok ([{ name := "x", typ := none, default := some (.val (.str "```foo(3)```")), doc := some "a value" }], none) := by decide
+theorem C02_full_fails_typ_dropped_code_default : ¬ C02_full envP :=
+  refute envP .class_ {} (one "x" { doc := some "a value", typ := some "np.ndarray", default := some (.val (.str "```foo(3)```")) })
+    (by decide) (by decide) (by decide)
+
+/-- **function: a negative number default under a type that mentions `str` stays an unresolved `UnaryOp` node** -/
+theorem function_negative_under_str_type :
+    roundTrip envP .function {} (one "x" { doc := some "a value", typ := some "Union[str, int]", default := some (.val (.int (-3))) }) =
+      .ok ([{ name := "x", typ := some "Union[str, int]", default := some (.node (.neg (.val (.int 3)))), doc := some "a value" }], none) := by
+  decide
+theorem C02_full_fails_function_negative_under_str_type : ¬ C02_full envP :=
+  refute envP .function {} (one "x" { doc := some "a value", typ := some "Union[str, int]", default := some (.val (.int (-3))) })
+    (by decide) (by decide) (by decide)
+
+def envR (t : String) (tbl : List (String × Expr)) : Env :=
+  envOf "doc" (docOne "x" "a value" (some "int") (some { doc := some "the result", typ := some t })) tbl
+def irR (t s : String) : IR := one "x" { doc := some "a value", typ := some "int" } (some { doc := some "the result", typ := some t, default := some (.val (.str s)) })
+
+/-- **function: a return type without `[` is deleted by a return statement and re-inferred from the default** (types in
+    the docstring) -/
+theorem function_return_typ_dropped :
+    roundTrip (envR "int" tblA) .function { typeAnnotations := false } (irR "int" "K") =
+      .ok ([{ name := "x", typ := some "int", default := some (.val (.str NoneStr)), doc := some "a value" }],
+           some { name := "return_type", typ := some "str", default := some (.val (.str "K")), doc := some "the result" }) := by decide
+theorem C02_full_fails_function_return_typ_dropped : ¬ C02_full (envR "int" tblA) :=
+  refute _ .function { typeAnnotations := false } (irR "int" "K") (by decide) (by decide) (by decide)
+
+/-- **function: a bare non-name return source comes back wrapped in backticks** -/
+theorem function_return_default_code_quoted :
+    roundTrip (envR "Tuple[int, int]" [("(a, b)", .code "(a, b)" true)]) .function {} (irR "Tuple[int, int]" "(a, b)") =
+      .ok ([{ name := "x", typ := some "int", default := some (.val (.str NoneStr)), doc := some "a value" }],
+           some { name := "return_type", typ := some "Tuple[int, int]", default := some (.val (.str "```(a, b)```")), doc := some "the result" }) := by
+  decide
+theorem C02_full_fails_function_return_default_code_quoted : ¬ C02_full (envR "Tuple[int, int]" [("(a, b)", .code "(a, b)" true)]) :=
+  refute _ .function {} (irR "Tuple[int, int]" "(a, b)") (by decide) (by decide) (by decide)
+
+def dRet : IR := { doc := "Set CLI arguments", params := [("argument_parser", { doc := some "argument parser", typ := some "ArgumentParser" })],
+                   returns := some { doc := some "argument_parser, the result", typ := some "Tuple[ArgumentParser, List[int]]" } }
+def irRet : IR := { name := some "F", doc := "Summary.", params := [], returns := some { doc := some "the result", typ := some "List[int]", default := some (.val (.str "```foo(3)```")) } }
+
+set_option maxRecDepth 8000 in
+/-- **argparse writes a code-quoted return default as a string constant and reads its *source* back** -/
+theorem argparse_return_code_quoted :
+    roundTrip (envOf rawB dRet []) .argparse {} irRet =
+      .ok ([], some { name := "return_type", typ := some "List[int]", default := some (.val (.str "'```foo(3)```'")), doc := some "the result" }) := by
+  decide
+set_option maxRecDepth 8000 in
+theorem C02_full_fails_argparse_return_code_quoted : ¬ C02_full (envOf rawB dRet []) :=
+  refute _ .argparse {} irRet (by decide) (by decide) (by decide)
 
 end C02
